@@ -592,7 +592,7 @@ def run_program(cx: Ctx, spec, cfg_seed, cfgs=None):
 
 # ------------------------------------------------------------------ plan / work / finish
 def plan(tier, seed):
-    shards, per = (32, 110) if tier == "quick" else (64, 5000)
+    shards, per = (32, 150) if tier == "quick" else (64, 4700)
     return [{"kind": "rand", "seed": seed * 100003 + i, "count": per} for i in range(shards)]
 
 
@@ -620,11 +620,11 @@ def finish(agg, tier):
     c = agg.counters
     inc = []
     nsched = len(agg.sets.get("schedules", ()))
-    need = {"programs": 2000, "solver_runs": 16000, "runs_using_worklist": 6000, "runs_using_perturbed_worklist": 3000,
-            "worklist_visits": 50000, "transfer_function_calls": 200000, "set_to_exit_state_calls": 2000,
-            "runs_with_permuted_op_order": 3000, "programs_with_ge2_schedules_on_identical_setup": 0,
-            "programs_with_ge2_distinct_schedules": 1000, "programs_nontrivial": 800,
-            "values_live_only_transitively": 5000, "removability_table_compared": 20000}
+    need = {"programs": 2000, "solver_runs": 16000, "runs_using_worklist": 5000, "runs_using_perturbed_worklist": 3000,
+            "worklist_visits": 40000, "transfer_function_calls": 100000, "set_to_exit_state_calls": 5000,
+            "runs_with_permuted_op_order": 4000, "programs_with_ge2_schedules_on_identical_setup": 200,
+            "programs_with_ge2_distinct_schedules": 800, "programs_nontrivial": 800,
+            "values_live_only_transitively": 3000, "removability_table_compared": 20000}
     for k, v in need.items():
         if c.get(k, 0) < v:
             inc.append(f"{k}={c.get(k, 0)} below reach threshold {v}")
